@@ -47,7 +47,7 @@ Chunk(type, ver, flags, payload, extraPad) ==
 Spans(n, k) ==
   IF n = 0 THEN <<>>
   ELSE IF k <= 0 \/ k >= n THEN <<[first |-> 0, count |-> n]>>
-  ELSE [i \in 1 .. ((n + k - 1) \div k) |-> [first |-> (i - 1) * k, count |-> Min(k, n - (i - 1) * k)]]
+  ELSE [i \in 1 .. ((n + k - 1) \div k) |-> [first |-> (i - 1) * k, count |-> Min2(k, n - (i - 1) * k)]]
 
 MinEnc(maxv) == IF maxv <= 255 THEN 1 ELSE IF maxv <= 65535 THEN 2 ELSE 4
 SeqMax(s) == IF s = <<>> THEN 0 ELSE CHOOSE x \in {s[i] : i \in DOMAIN s} : \A i \in DOMAIN s : s[i] <= x
@@ -70,8 +70,8 @@ TopoChunk(ent, items, sp, variable, venc, henc, useOff, xp) ==
       lens == [i \in 1 .. sp.count |-> Len(its[i])]
       uniform == \A i \in 1 .. sp.count : lens[i] = lens[1]
       var  == variable \/ ~uniform \/ lens[1] = 0 \/ lens[1] > 255
-      ve   == IF var THEN Max(venc, MinEnc(SeqMax(lens))) ELSE 0
-      he   == Max(henc, MinEnc(SeqMax(allh) - off))
+      ve   == IF var THEN Max2(venc, MinEnc(SeqMax(lens))) ELSE 0
+      he   == Max2(henc, MinEnc(SeqMax(allh) - off))
   IN Chunk(TagTOPO, 0, 1,
            LE64(sp.first) \o LE(sp.count, 4) \o <<ent, IF var THEN 0 ELSE lens[1], ve, he>> \o LE64(off)
            \o (IF var THEN Flat([i \in 1 .. sp.count |-> LE(lens[i], ve)]) ELSE <<>>)
@@ -134,7 +134,7 @@ Encode(m, ch) ==
                \o (IF ch.dirlate THEN dir ELSE <<>>)
                \o (IF early THEN <<>> ELSE propChunks({"V", "E", "F", "C", "HE", "HF", "M"}))
       withSkip == IF ch.skip = 0 THEN body
-                  ELSE LET k == Min(ch.skip - 1, Len(body)) IN
+                  ELSE LET k == Min2(ch.skip - 1, Len(body)) IN
                        SubSeq(body, 1, k) \o <<SkipChunk(ch.skipver)>> \o SubSeq(body, k + 1, Len(body))
   IN hdr \o Flat(withSkip) \o Chunk(TagEOF, 0, 1, <<>>, ch.pad)
 
@@ -244,7 +244,7 @@ Mutants(b) ==
    \cup {[k |-> "dup", at |-> xs[i].o, del |-> 0, ins |-> chunkBytes(i)] : i \in DOMAIN xs}
    \cup {[k |-> "swap", at |-> xs[i].o, del |-> xs[i].len + xs[i + 1].len, ins |-> chunkBytes(i + 1) \o chunkBytes(i)] : i \in 1 .. Len(xs) - 1}
    \cup UNION {{[k |-> "eofmove", at |-> xs[j].o, del |-> 0, ins |-> chunkBytes(i)] : j \in 1 .. i - 1} : i \in eofs}
-   \cup {[k |-> "append", at |-> n + 1, del |-> 0, ins |-> v] : v \in {<<0>>, FF(16), Slice(b, 1, Min(n, 48))}}
+   \cup {[k |-> "append", at |-> n + 1, del |-> 0, ins |-> v] : v \in {<<0>>, FF(16), Slice(b, 1, Min2(n, 48))}}
 
 (* ------------------------------ theorems -------------------------------- *)
 EncodeDecodes(m, e) == LET P == ParseFile(e) IN P.ok /\ SameMesh(P, m) /\ P.topo \in {0, DetectTopo(m, "poly")}
